@@ -35,6 +35,9 @@ CHECKS = {
     "C06": ("IntervalSet model of the bytes stored so far judged on every NAK PDU a real destination handler emits while a scripted "
             "sender delivers a grid-segmented file in tape-chosen order with loss / duplication / displacement and answers NAK "
             "sequences across NAK-timer expiries; exactness on timer-driven re-issues, sandwich inclusion on the first sequence", "5 C06", "refinement vs IntervalSet model"),
+    "C18": ("shadow IntervalSet judged on every LostSegmentTracker operation the destination handler issues under simulated arrival "
+            "histories and fault schedules (grid, bounded-fault, chaos, synthetic-peer populations); only operations inside the "
+            "property's preconditions are judged; the exhaustive-for-small-N part of the quantifier is NOT reached (DESIGN 6)", "5 C18, 6", "in-situ refinement vs shadow IntervalSet"),
     "C15": ("indication model judged on every handler call in four populations; 2^4 switches per entity and 5 message variants", "5 C15", "in-situ invariant vs IndicationModel"),
 }
 NOT_BUILT = "check not built yet (work in progress, see DESIGN.md section 5)"
